@@ -2,6 +2,8 @@ from . import c01, wrappers
 
 
 def run(check, pool, Task):
+    from . import validate
+    validate.apply(check, ['segments', 'pip', 'box_kernels', 'bounds_kernels'])
     c01.run_kernels(check, pool, Task)
     wrappers.run_c01(check, pool, Task)
 
